@@ -1223,3 +1223,109 @@ _add(
         tags=("tiny", "multi-form"),
     )
 )
+
+
+# ---- additions after the fifth round of seeded changes ----------------------------------------
+# vertex-based geometric quantities on a manifold (triangles in 3D)
+_add(
+    Request(
+        "cell_geometry_tri_manifold",
+        "forms",
+        [
+            'mesh = ufl.Mesh(basix.ufl.element("Lagrange", "triangle", 1, shape=(3,)))',
+            'el = basix.ufl.element("Lagrange", "triangle", 1)',
+            "V = ufl.FunctionSpace(mesh, el)",
+            "v = ufl.TestFunction(V)",
+            "f = ufl.Coefficient(V)",
+            "L = ufl.CellDiameter(mesh) * ufl.Circumradius(mesh) * ufl.MinCellEdgeLength(mesh) "
+            "* ufl.MaxCellEdgeLength(mesh) * f * v * ufl.dx",
+            "objs = [L]",
+        ],
+        tags=("kern", "geo"),
+    )
+)
+_add(
+    Request(
+        "cell_geometry_quad_manifold",
+        "forms",
+        [
+            'mesh = ufl.Mesh(basix.ufl.element("Lagrange", "quadrilateral", 1, shape=(3,)))',
+            'el = basix.ufl.element("Lagrange", "quadrilateral", 1)',
+            "V = ufl.FunctionSpace(mesh, el)",
+            "v = ufl.TestFunction(V)",
+            "L = ufl.CellDiameter(mesh) * ufl.MaxCellEdgeLength(mesh) * v * ufl.dx",
+            "objs = [L]",
+        ],
+        tags=("kern", "geo"),
+    )
+)
+# a bilinear form whose integral data has interior-facet integrals followed by further integrals
+_add(
+    Request(
+        "two_dS_and_vertex_bilinear_tri",
+        "forms",
+        [
+            _mesh("triangle"),
+            'el = basix.ufl.element("Lagrange", "triangle", 1)',
+            "V = ufl.FunctionSpace(mesh, el)",
+            "u = ufl.TrialFunction(V)",
+            "v = ufl.TestFunction(V)",
+            "a = ufl.jump(u) * ufl.jump(v) * ufl.dS(1) + ufl.avg(u) * ufl.avg(v) * ufl.dS(2) "
+            "+ u('+') * v('-') * ufl.dS + u * v * ufl.dP + u * v * ufl.dx + u * v * ufl.ds",
+            "objs = [a]",
+        ],
+        tags=("kern", "facet", "interior", "vertex"),
+    )
+)
+# a custom rule whose points carry round-off next to 0 and 1 (1 - 0.7 - 0.3 = 5.55e-17, -0.0)
+_add(
+    Request(
+        "cquad_roundoff",
+        "forms",
+        [
+            _mesh("triangle"),
+            'el = basix.ufl.element("Lagrange", "triangle", 1)',
+            "V = ufl.FunctionSpace(mesh, el)",
+            "u = ufl.TrialFunction(V)",
+            "v = ufl.TestFunction(V)",
+            "qpts = np.array([[1 - 0.7 - 0.3, 0.5], [0.5, -0.0], [0.5, 0.5 - 1e-17], [1.0 / 3, 1 - 1e-16 - 2.0 / 3]])",
+            "qwts = np.array([1.0, 1.0, 1.0, 1.0]) / 8.0",
+            'a = ufl.inner(u, v) * ufl.dx(metadata={"quadrature_rule": "custom", '
+            '"quadrature_points": qpts, "quadrature_weights": qwts})',
+            "objs = [a]",
+        ],
+        tags=("family", "cquad", "npstr", "kern"),
+    )
+)
+_add(
+    Request(
+        "qelem_roundoff",
+        "forms",
+        [
+            _mesh("triangle"),
+            "qpts = np.array([[1 - 0.7 - 0.3, 0.5], [0.5, -0.0], [0.25, 0.25]])",
+            "qwts = np.array([1.0, 1.0, 1.0]) / 6.0",
+            'qe = basix.ufl.quadrature_element("triangle", points=qpts, weights=qwts)',
+            "Q = ufl.FunctionSpace(mesh, qe)",
+            'V = ufl.FunctionSpace(mesh, basix.ufl.element("Lagrange", "triangle", 1))',
+            "f = ufl.Coefficient(Q)",
+            "v = ufl.TestFunction(V)",
+            'L = f * v * ufl.dx(metadata={"quadrature_rule": "custom", '
+            '"quadrature_points": qpts, "quadrature_weights": qwts})',
+            "objs = [L]",
+        ],
+        tags=("family", "qelem", "npstr"),
+    )
+)
+# option values that compare equal but are of another type (0 == 0.0 == False, 30 == 30.0)
+for _lab, _opts in (("eps-int0", {"epsilon": 0}), ("eps-float0", {"epsilon": 0.0}),
+                    ("verbosity-float", {"verbosity": 30.0}), ("verbosity-int", {"verbosity": 30}),
+                    ("sumfact-0", {"sum_factorization": 0}), ("sumfact-False", {"sum_factorization": False})):
+    _add(POOL["stiff_p2_triangle"].variant(f"@{_lab}", options=_opts, tags=("family", "nocli")))
+# compiler flags that only look like warning switches
+_add(POOL["stiff_p2_triangle"].variant("@Wp-define", jit_kwargs={"cffi_extra_compile_args": ["-Wp,-DFFCX_VERIF_X=1"]},
+                                       tags=("family", "jitonly")))
+_add(POOL["stiff_p2_triangle"].variant("@Wall", jit_kwargs={"cffi_extra_compile_args": ["-Wall"]},
+                                       tags=("family", "jitonly")))
+_add(POOL["stiff_p2_triangle"].variant("@Werror", jit_kwargs={"cffi_extra_compile_args": ["-Werror"]},
+                                       tags=("family", "jitonly")))
